@@ -51,6 +51,9 @@ class CpuTimeout(BaseException):
     swallow it."""
 
 
+CPU_BUDGET_SCALE = 3
+
+
 @contextlib.contextmanager
 def cpu_limit(seconds):
     """CPU-time (not wall) watchdog for one item; machine load cannot trip it."""
@@ -59,7 +62,9 @@ def cpu_limit(seconds):
         raise CpuTimeout()
 
     old = signal.signal(signal.SIGVTALRM, handler)
-    signal.setitimer(signal.ITIMER_VIRTUAL, seconds)
+    # the budgets named at the call sites are nominal; they are stretched here because the CPU-time accounting of a heavily overcommitted
+    # VM has charged 10 "CPU-seconds" to a one-line compilation (a budget only has to be finite to stop a real hang)
+    signal.setitimer(signal.ITIMER_VIRTUAL, seconds * CPU_BUDGET_SCALE)
     try:
         yield
     finally:
@@ -248,7 +253,7 @@ def jsonable(o):
         return repr(o)
 
 
-WATCHDOG_KEY = re.compile(r"timeout|hang|runaway|did-not-finish")
+WATCHDOG_KEY = re.compile(r"timeout|hang|runaway|did-not-finish", re.I)
 
 
 def finish(mod, ctx, t0):
